@@ -438,7 +438,10 @@ def ev_cases(rng, n):
         k = [1, 1, 2, 3, 5][i % 5]
         nrow = [1, 4, 6, 1, 3][(i // 2) % 5]
         dt = np.float32 if i % 3 == 0 else np.float64
-        d["Eigenvalues"] = np.abs(rng.normal(size=k)).astype(dt)
+        mag = [1.0, 1.0, 1e18, 1e-20, 3e6][i % 5]          # tiny units give huge eigenvalues: printed with exponents e+NN / e-NN
+        d["Eigenvalues"] = (np.abs(rng.normal(size=k)) * mag).astype(dt)
+        if i % 7 == 3:
+            d["Eigenvalues"][0] = -d["Eigenvalues"][0] * 1e-3
         if i % 4 != 3:
-            d["Eigenvectors"] = rng.normal(size=(nrow, k)).astype(dt)
+            d["Eigenvectors"] = (rng.normal(size=(nrow, k)) * [1.0, 1e17, 1e-12][i % 3]).astype(dt)
         yield d
